@@ -258,6 +258,9 @@ func (e *Engine) loopsOf(fn *ssa.Function) *loopInfo {
 		var m token.Pos
 		for b := range l.blocks {
 			for _, in := range b.Instrs {
+				if _, isPhi := in.(*ssa.Phi); isPhi {
+					continue // a phi carries the position of the variable's declaration, not of the loop
+				}
 				if p := in.Pos(); p.IsValid() && (m == 0 || p < m) {
 					m = p
 				}
@@ -653,12 +656,12 @@ func (f *Frame) load(st *State, addr string, t types.Type) string {
 			inner := u.Elem().Underlying().(*types.Array)
 			a := f.ctx.Fresh("arr", f.ctx.sortOf(t))
 			h := f.heap(st, heapName(inner.Elem()))
-			f.ctx.Fact(fmt.Sprintf("(forall ((i Int) (j Int)) (! (= (select (select %s i) j) (select %s (elemp (elemp %s i) j))) :pattern ((select (select %s i) j))))", a, h, addr, a))
+			f.ctx.Fact(fmt.Sprintf("(forall ((i Int) (j Int)) (! (= (select (select %s i) j) (select %s (elemp (elemp %s i) j))) :pattern ((select (select %s i) j)) :pattern ((select %s (elemp (elemp %s i) j)))))", a, h, addr, a, h, addr))
 			return a
 		}
 		a := f.ctx.Fresh("arr", f.ctx.sortOf(t))
 		h := f.heap(st, heapName(u.Elem()))
-		f.ctx.Fact(fmt.Sprintf("(forall ((i Int)) (! (= (select %s i) (select %s (elemp %s i))) :pattern ((select %s i))))", a, h, addr, a))
+		f.ctx.Fact(fmt.Sprintf("(forall ((i Int)) (! (= (select %s i) (select %s (elemp %s i))) :pattern ((select %s i)) :pattern ((select %s (elemp %s i)))))", a, h, addr, a, h, addr))
 		return a
 	}
 	h := f.heap(st, heapName(t))
